@@ -251,6 +251,10 @@ def tensor_binop(it: Any, name: str, a: Any, b: Any, node: Any, inplace: bool) -
     else:
         shape = lead.shape
     dtype = lead.dtype
+    if both_tensor and not inplace and a.dtype is not None and b.dtype is not None and a.dtype != b.dtype and a.const is None and b.const is None and not (b.shape is not None and len(b.shape) == 0) and not (a.shape is not None and len(a.shape) == 0):
+        # out-of-place arithmetic of two dimensioned tensors: PyTorch type promotion (in place, the
+        # receiver's dtype is kept)
+        dtype = ("promote", tuple(sorted((str(a.dtype), str(b.dtype)))))
     if name in ("lt", "le", "gt", "ge", "eq", "ne"):
         dtype = "torch.bool"
     res = TV(T(name, (ta, tb)), shape=shape, dtype=dtype)
